@@ -503,6 +503,15 @@ func mathMod(in *Interp, _ *frame, _ *ssa.Function, a []Value) Value {
 	if x.IsConst() && y.IsConst() {
 		return ts.F64Const(math.Mod(x.F64Val(), y.F64Val()))
 	}
+	if y.IsConst() && !x.IsConst() {
+		if yv := math.Abs(y.F64Val()); yv >= 1 && yv <= (1<<62) && yv == math.Trunc(yv) && uint64(yv)&(uint64(yv)-1) == 0 {
+			k := 0
+			for uint64(1)<<uint(k) != uint64(yv) {
+				k++
+			}
+			return modPow2(in, x, k)
+		}
+	}
 	ax, ay := ts.FUn(OFAbs, x), ts.FUn(OFAbs, y)
 	r := ts.FBin(OFRem, ax, ay)
 	zero := ts.F64Const(0)
@@ -514,6 +523,43 @@ func mathMod(in *Interp, _ *frame, _ *ssa.Function, a []Value) Value {
 	special := ts.Or(ts.Or(ts.FIsNaN(x), ts.FIsNaN(y)), ts.Or(ts.FIsInf(x), ts.FCmp(OFEq, y, zero)))
 	res = ts.Ite(special, nan, ts.Ite(ts.FIsInf(y), x, res))
 	return res
+}
+
+// modPow2 models math.Mod(x, 2^k) exactly on the IEEE bit pattern: for
+// |x| = sig * 2^(e-52) the result keeps the bits of |x| below 2^k, which is
+// an integer multiple of 2^(e-52) smaller than 2^k and therefore exactly
+// representable; the sign is that of x (C fmod / Go math.Mod semantics).
+func modPow2(in *Interp, x *Term, k int) Value {
+	ts := in.ts
+	bits := in.floatBits(x, 64)
+	expF := ts.ZExt(ts.Extract(bits, 62, 52), 64)
+	mant := ts.ZExt(ts.Extract(bits, 51, 0), 64)
+	sign := ts.Extract(bits, 63, 63)
+	sig := ts.BOr(mant, ts.BVConst(1<<52, 64))
+	c := func(v int64) *Term { return ts.BVConst(uint64(v), 64) }
+	// e = expF - 1023 ; shift = e - 52
+	e := ts.Sub(expF, c(1023))
+	// cases
+	isSpecial := ts.Eq(expF, c(0x7ff))
+	small := ts.SLt(e, c(int64(k))) // |x| < 2^k (also zeros/subnormals: e = -1023)
+	allAbove := ts.SLe(c(int64(k)), ts.Sub(e, c(52))) // every significant bit >= 2^k
+	// middle: k <= e < k+52. Integer value of |x| scaled: if e >= 52 then
+	// v = sig << (e-52) else v = sig >> (52-e) with a fraction; handle both by
+	// keeping the low (k - (e-52)) bits of sig.
+	nlow := ts.Sub(c(int64(k)+52), e) // number of low bits of sig kept: in (0, 52]
+	maskT := ts.Sub(ts.bin(OShl, c(1), nlow), c(1))
+	frac := ts.BAnd(sig, maskT) // < 2^52
+	fracF := ts.FFromInt(frac, false, F64Sort)
+	// scale = 2^(e-52) built from its bit pattern (e-52 in [k-52, k) so normal)
+	scaleBits := ts.bin(OShl, ts.Add(ts.Sub(e, c(52)), c(1023)), c(52))
+	scale := ts.FFromBits(scaleBits)
+	mid := ts.FBin(OFMul, fracF, scale)
+	ax := ts.FUn(OFAbs, x)
+	mag := ts.Ite(small, ax, ts.Ite(allAbove, ts.F64Const(0), mid))
+	neg := ts.Eq(sign, ts.BVConst(1, 1))
+	res := ts.Ite(neg, ts.FUn(OFNeg, mag), mag)
+	nan := ts.F64Const(math.NaN())
+	return ts.Ite(isSpecial, nan, res)
 }
 
 // sortSlice implements sort.Slice / sort.SliceStable as a stable insertion sort.
